@@ -143,6 +143,28 @@ Definition make_list_node (current_id our_id : nat) (st : pstate) (under_group :
   let '(nodes1, parent, tl) := r in
   Ok (nodes1 ++ [mkNode D_List S_StartGrouping parent tl (Some our_id) (last_token st)]).
 
+(* block_has_operand: the chain of left operands of a side effect block, through side
+   effect blocks, ends in an operand that is not one; [fuel] only makes the recursion
+   structural: the [count > nodes.len()] guard ends the loop first *)
+Fixpoint block_has_operand (fuel : nat) (nodes : list pnode) (n : pnode) (count : nat) : res bool :=
+  match fuel with
+  | O => OutOfFuel
+  | S fuel' =>
+    match n_left n with
+    | None => Ok false
+    | Some l =>
+      match nth_error nodes l with
+      | None => impl_err
+      | Some ln =>
+        if negb (definition_eqb (n_def ln) D_SideEffect) then Ok true
+        else
+          let count' := S count in
+          if Nat.ltb (length nodes) count' then impl_err
+          else block_has_operand fuel' nodes ln count'
+      end
+    end
+  end.
+
 (* setup_space_list_check: returns the new check_for_list *)
 Definition space_list_check (st : pstate) (under_group : option nat) : res bool :=
   match last_left st with
@@ -155,9 +177,10 @@ Definition space_list_check (st : pstate) (under_group : option nat) : res bool 
       let is_group_value := (definition_eqb (n_def ln) D_Group || definition_eqb (n_def ln) D_NestedExpression)
                             && negb (opt_nat_eqb (last_left st) under_group) in
       let is_suffix_value := secondary_eqb (n_sec ln) S_UnarySuffix in
-      let is_block_value := definition_eqb (n_def ln) D_SideEffect
-                            && match n_left ln with Some _ => true | None => false end
-                            && negb (opt_nat_eqb (last_left st) under_group) in
+      do is_block_value <-
+        (if definition_eqb (n_def ln) D_SideEffect && negb (opt_nat_eqb (last_left st) under_group)
+         then block_has_operand (S (length (nodes st))) (nodes st) ln 0
+         else Ok false);
       Ok (if is_value || is_group_value || is_suffix_value || is_block_value then true else check_for_list st)
     end
   end.
@@ -439,7 +462,8 @@ Fixpoint run_steps (ntoks : nat) (i : nat) (toks : list token_type) (st : pstate
   end.
 
 Definition is_trim (t : token_type) : bool :=
-  token_type_eqb t TT_Whitespace || token_type_eqb t TT_Subexpression.
+  token_type_eqb t TT_Whitespace || token_type_eqb t TT_Subexpression
+  || token_type_eqb t TT_Annotation || token_type_eqb t TT_LineAnnotation.
 
 Fixpoint drop_while_trim (l : list token_type) : list token_type :=
   match l with
